@@ -371,6 +371,7 @@ def run(pid, args, seed, work, t0):
     ctx.generated = dict(ctx.generated, catalogue=spec_tables.catalogue())
     ctx.gen = gen.Gen(seed + 1000003, literals)
     real.LOGMODE = 'mixed'      # calls alternate between default logging and DEBUG enabled for pamqp's loggers
+    real.DECMODE = 'mixed'      # ... and cycle through decimal contexts (default, 3 digits, trapping Inexact / Rounded)
     results = []
     gave_up = None
     for o in reg['oracles']:
@@ -444,18 +445,25 @@ def run(pid, args, seed, work, t0):
             else:
                 viols.append(v)
     real.LOGMODE = 'default'
+    real.DECMODE = 'default'
     for v in viols[:3]:
         # which logging configuration does the recorded case need to reproduce? (kept in the replay file)
         rep = v.get('replay') or {}
         if rep.get('fn') in oracles.REPLAYS:
-            for mode in ('default', 'debug', 'mixed'):
-                try:
-                    if oracles.replay(dict(rep, logging=mode)):
-                        rep['logging'] = mode
-                        break
-                except Exception:  # noqa
-                    pass
-            else:
+            found = False
+            for dmode in ('default', 'prec3', 'traps', 'mixed'):
+                for mode in ('default', 'debug', 'mixed'):
+                    try:
+                        if oracles.replay(dict(rep, logging=mode, decimal_context=dmode)):
+                            rep['logging'] = mode
+                            rep['decimal_context'] = dmode
+                            found = True
+                            break
+                    except Exception:  # noqa
+                        pass
+                if found:
+                    break
+            if not found:
                 rep['reproduces'] = 'not in isolation: the case depends on what ran before it in this process'
     # ---- evidence
     evals = sum(r.evaluations for r in results) + sum(l['evaluations'] for l in lane_results)
